@@ -461,10 +461,21 @@ func (p *Packer) Unpack(r io.Reader, dst string) (err error) {
 	// them leads out of dst by way of another one.
 	type extractedSymlink struct{ name, path string }
 	symlinksExtracted := []extractedSymlink{}
+	symlinksChecked := false
+	checkSymlinks := func() error {
+		symlinksChecked = true
+		var first error
+		for _, link := range symlinksExtracted {
+			if cerr := p.checkSymlinkDestination(dst, link.name, link.path); cerr != nil && first == nil {
+				first = cerr
+			}
+		}
+		return first
+	}
 	defer func() {
 		// Also when extraction stops early: the links made so far stay behind.
-		for _, link := range symlinksExtracted {
-			if cerr := p.checkSymlinkDestination(dst, link.name, link.path); cerr != nil && err == nil {
+		if !symlinksChecked {
+			if cerr := checkSymlinks(); cerr != nil && err == nil {
 				err = cerr
 			}
 		}
@@ -597,6 +608,13 @@ func (p *Packer) Unpack(r io.Reader, dst string) (err error) {
 		if err := info.RestoreInfo(); err != nil {
 			return err
 		}
+	}
+
+	// The links are examined before the directories get their recorded modes:
+	// an offending link could no longer be removed from a directory that has
+	// been made read-only.
+	if err := checkSymlinks(); err != nil {
+		return err
 	}
 
 	for _, dir := range directoriesExtracted {
